@@ -119,7 +119,11 @@ def cname(t):
     if k == 'v':
         return 'void'
     if k == 'p':
+        if t[1][0] == 'a':           # pointer to array: T(*)[N]
+            return '%s(*)[%d]' % (cname(t[1][2]), t[1][1])
         return cname(t[1]) + ' *'
+    if k == 'a':
+        return '%s[%d]' % (cname(t[2]), t[1])
     if k == 'fp':
         r, a, _ = HELPER_SIGS[t[1]]
         return '%s(*)(%s)' % (r, ', '.join(a))
@@ -130,6 +134,8 @@ def declare(t, name):
     if t[0] == 'fp':
         r, a, _ = HELPER_SIGS[t[1]]
         return '%s (*%s)(%s)' % (r, name, ', '.join(a))
+    if t[0] == 'p' and t[1][0] == 'a':
+        return '%s (*%s)[%d]' % (cname(t[1][2]), name, t[1][1])
     if t[0] == 'a':
         dims, it = '', t
         while it[0] == 'a':          # arrays of arrays: T name[n][m]
@@ -244,6 +250,9 @@ def _param_types(draw, nstructs, allow_fp=True):
             elem = draw(scalar_types())
         n = draw(st.sampled_from(_NS))
         mode = draw(st.sampled_from(['r', 'w']))
+        if allow_fp and is_scalar(elem) and draw(st.integers(0, 3)) == 0:
+            # pointer to array parameter 'T a[][N]' (rows may be given as ragged lists)
+            return ['p', ['a', draw(st.integers(2, 5)), elem], min(n, 5), mode]
         return ['p', elem, n, mode]
     if c == 12 and allow_fp:
         return ['fp', draw(st.integers(0, len(HELPER_SIGS) - 1))]
@@ -403,6 +412,9 @@ def func_body(i, f, nstructs):
                 inner = _fold_scalar(['i', 'unsigned char'], '((const unsigned char *)%s)[i]' % a)
             elif elem[0] == 's':
                 inner = 'acc = fold_s%d(acc, &%s[i]);' % (elem[1], a)
+            elif elem[0] == 'a':
+                inner = '{ int k_; for (k_ = 0; k_ < %d; k_++) { %s } }' % (
+                    elem[1], _fold_scalar(elem[2], a + '[i][k_]'))
             else:
                 inner = _fold_scalar(elem, a + '[i]')
             b.append('if (%s) { for (i = 0; i < %d; i++) { %s } } else acc = cg_mix(acc, 0xdead);' % (a, n, inner))
@@ -426,6 +438,9 @@ def func_body(i, f, nstructs):
                 st_ = '((unsigned char *)%s)[i] = (unsigned char)cg_mix(acc, i + %d);' % (a, j)
             elif elem[0] == 's':
                 st_ = 'fill_s%d(&%s[i], cg_mix(acc, i + %d));' % (elem[1], a, j)
+            elif elem[0] == 'a':
+                st_ = '{ int k_; for (k_ = 0; k_ < %d; k_++) %s[i][k_] = %s; }' % (
+                    elem[1], a, _gen_scalar(elem[2], 'cg_mix(acc, i * 7 + k_ + %d)' % j))
             else:
                 st_ = '%s[i] = %s;' % (a, _gen_scalar(elem, 'cg_mix(acc, i + %d)' % j))
             b.append('if (%s) for (i = 0; i < %d; i++) { %s }' % (a, n, st_))
@@ -695,6 +710,9 @@ def pointer_args(mod, t, grade='any'):
                             struct_inits(mod, elem[1], 'partial'))
         elif elem[0] == 'v':
             one = st.integers(0, 255).map(lambda v: ['int', v])
+        elif elem[0] == 'a':
+            # rows as (possibly shorter = ragged) lists: the missing tail must read as zero
+            one = st.lists(scalar_inits(elem[2], 'plain'), min_size=0, max_size=elem[1]).map(lambda l: ['list', l])
         else:
             one = scalar_inits(elem, 'plain')
         if n > 8:
@@ -895,7 +913,11 @@ def build_value(ffi, lib, v, out):
         return dict((n, build_value(ffi, lib, x, out)) for n, x in v[1])
     if k == 'arr':
         items = [build_value(ffi, lib, x, out) for x in v[2]]
-        a = ffi.new('%s[]' % v[1], items)
+        en = v[1]
+        if en.endswith(']') and '(' not in en:      # array element type 'T[N]': T[][N]
+            a = ffi.new('%s[]%s' % (en[:en.index('[')], en[en.index('['):]), items)
+        else:
+            a = ffi.new('%s[]' % en, items)
         out.arrays.append((a, v[1], len(items)))
         return a
     if k in ('struct', 'structptr'):
